@@ -276,7 +276,7 @@ def bounded_alloc(ctx):
                              % (render(sz, maxdepth=3), ", ".join(sorted(set(flow.short(c[1]).split("::")[-1] for c in reads))),
                                 "lower and upper bound" if not lo and not hi else ("lower bound" if not lo else "upper bound")),
                       detail="wire-sized allocation is bounded below and above")
-    ctx.floor(R, "allocation-sizing calls in scope", n, 6)
+    ctx.floor(R, "allocation-sizing calls in scope", n, 3)
 
 
 # ---- C04/panic-sites ----------------------------------------------------------------------------
